@@ -110,7 +110,7 @@ PROPS = {
               ' Also: a lost connection is attributed to a member only by comparing the registry entries with the connection object; CONNECTED is entered only behind a clear SO_ERROR.',
               ['reconnection within bounded time', 'half-open connection handling', 'accuracy of connect/disconnect notifications under fault sequences'],
               'must-fact guard entailment, effect multiset per path'),
-    'C15': _p(['R-delegate-agree', 'R-counter-ops', 'R-queue-bound', 'R-consumer-state', 'R-cmd-shapes', 'R-none-is-a-value'],
+    'C15': _p(['R-delegate-agree', 'R-counter-ops', 'R-queue-bound', 'R-consumer-state', 'R-cmd-shapes', 'R-none-is-a-value', 'R-heap-discipline'],
               'every delegating battery method agrees with the builtin it forwards to (operation, parameter order, defaults, returned value; documented deviations tabled); counter arithmetic; '
               'bounded queues insert only below the bound, report acceptance truthfully, remove in queue order; battery state is created where it gets serialised.'
               ' Also: no wrapper decides absence of a key from a None lookup result (None is a value).',
@@ -129,7 +129,7 @@ PROPS = {
               ' Also: every (wildcard) store of the enabled version reaches a rebuild of the name table on all normal paths; own and consumer methods are selected for id assignment by the same filter.',
               ['compatibility of old and new user code'],
               'def-use on sort keys, expression-shape agreement, guard entailment'),
-    'C18': _p(['R-majority', 'R-no-vote-without-address', 'R-observer-bookkeeping', 'R-readonly-id-unique', 'R-selfnode-deref', 'R-apply-on-append', 'R-owners-membership'],
+    'C18': _p(['R-majority', 'R-no-vote-without-address', 'R-observer-bookkeeping', 'R-readonly-id-unique', 'R-selfnode-deref', 'R-apply-on-append', 'R-owners-membership', 'R-sender-total'],
               'all majorities measure and count the voter set only; no candidacy or vote without an own address, vote requests to voters only, observers only receive append_entries; '
               'observer connect/disconnect touch only observer bookkeeping; no unguarded dereference of the (possibly absent) own node in tick-reachable code.'
               ' Also: read-only nodes apply stored membership entries like voters do; voter / observer / connected sets have fixed owners.',
